@@ -57,6 +57,8 @@ try:
     os.makedirs(out, exist_ok=True)
     sh("git reset -q", cwd=wt)
     sh("rm -f demo.py", cwd=wt)
+    # files the change adds are part of it (intent-to-add makes `git diff` show them)
+    sh("git add -N -- nsl nslc.py nslr.py", cwd=wt)
     # bytes-exact (the sources are CRLF; text-mode capture would strip the CRs)
     sh(f"git diff -- nsl nslc.py nslr.py > {out}/patch.diff", cwd=wt)
     d = sh("git diff --stat -- nsl nslc.py nslr.py", cwd=wt)
